@@ -2250,6 +2250,19 @@ class OrderedNamespaceSet(NamespaceSet[_NSO], MutableSequence[_NSO], Generic[_NS
         super().add(object_)
         self._order.insert(index, object_)
 
+    def extend(self, values: Iterable[_NSO]) -> None:
+        # MutableSequence.extend() appends one item after the other; if one of them is refused, remove the items added
+        # by this call again, so that a rejected extend() (or `+=`) leaves the set unchanged
+        added: List[_NSO] = []
+        try:
+            for v in list(values):
+                self.append(v)
+                added.append(v)
+        except Exception:
+            for v in reversed(added):
+                self.remove(v)
+            raise
+
     @overload
     def __getitem__(self, i: int) -> _NSO: ...
 
